@@ -750,6 +750,15 @@ def model (kv : List (String × String)) : Option (Option String × String) := d
   | "scn" =>
     let reqs ← scnReqs (getS kv "reqs")
     let defs := (splitList (getS kv "defs")).map str
+    -- a sleep that does not fit `time.Duration` (more than 9223372036854 ms): `time.Millisecond * time.Duration(sleep)` wraps
+    -- around in the real code; what a scenario then sleeps is outside C13's statement (no crash, no hang, no allocation): the
+    -- driver predicts nothing for such a list and only the crash class is judged
+    let durMs : Int := 9223372036854
+    let sleepOutOfRange := reqs.any fun sh =>
+      match parseShootName sh with
+      | .ok s => decide (s.sleep > durMs ∨ s.sleep < -durMs) || (s.name == sleepName && decide (s.cnt > durMs ∨ s.cnt < -durMs))
+      | _ => false
+    if sleepOutOfRange then pure (none, s!"{getS kv "kind"}/scenario provider") else
     let m := match expand true (fun n => defs.contains n) reqs with
       | .ok steps => "steps=" ++ String.intercalate "," (steps.map fun (n, s) => s!"{hexB n}:{s}") ++ " end=ok"
       | .err _ => "end=ctor-err"
